@@ -30,7 +30,7 @@ def load_index():
             mp = os.path.join(sd, d, "meta.json")
             if os.path.exists(mp):
                 meta = json.load(open(mp))
-                out.append({"id": d, "property": meta["property"], "kind": "breaking",
+                out.append({"id": d, "property": meta["property"], "kind": "undetected-limit" if meta.get("expected_undetected") else "breaking",
                             "description": meta.get("summary", ""), "patch": os.path.join(sd, d, "patch.diff"),
                             "also": meta.get("also_checks", [])})
     return out
@@ -107,9 +107,12 @@ def main():
                 primary = prop == res["property"]
                 ok = (r["exit"] == want) if primary else (r["exit"] in (0, 1))
                 verdict = "ok  " if ok else "MISS" if want == 1 else "FALSE-ALARM"
+                if res["kind"] == "undetected-limit":
+                    verdict = "LIMIT (documented, not detected)" if r["exit"] == 0 else "ok (detected after all)"
+                    ok = True
                 if r["exit"] == 2:
                     verdict = "MACHINERY"
-                if not ok:
+                if not ok and res["kind"] != "undetected-limit":
                     bad += 1
                 print("%-6s %-4s %-18s exit=%d %-11s %5.1fs  %s" % (res["id"], prop, res["kind"], r["exit"], verdict, r["wall"], res["description"][:70]))
                 for l in r["lines"][:3]:
